@@ -6,8 +6,10 @@ contract("C06.category_handler",
          file="hed/models/column_mapper.py", func="ColumnMapper._category_handler",
          params={"category_values": "Map[Str,Str]", "x": "Str"}, returns="Str", enc="native",
          ensures={
-             "C06.cat.listed_key_selects_entry": "implies(x in category_values, result == category_values[x])",
-             "C06.cat.na_is_absent": "implies(x not in category_values, result == 'n/a')",
+             # from the property: "the categorical entry selected by each categorical cell ..., skipping cells that are n/a or empty"
+             "C06.cat.listed_key_selects_entry": "implies(x != 'n/a' and x != '' and x in category_values, result == category_values[x])",
+             "C06.cat.na_or_empty_cell_is_absent": "implies(x == 'n/a' or x == '', result == 'n/a')",
+             "C06.cat.unlisted_key_is_absent": "implies(x not in category_values, result == 'n/a')",
          },
          bounded={"category_values": 'choice:[{"a": "Red", "b": "Blue"}, {}, {"n/a": "Green"}]',
                   "x": 'choice:["a", "b", "n/a", "zz", ""]'})
